@@ -190,6 +190,13 @@ def main(argv):
             if not lean["ok"]:
                 ctx.notes.append("Lean obligations broken: " + "; ".join(lean["failures"])[:300])
         mod.run(ctx, widen=bool(lean and not lean["ok"]))
+    except (ImportError, AttributeError) as e:
+        # an observation point the harness ties the model to (a module, a function, an attribute of the implementation) is gone:
+        # the tie is broken, which is reported like any other broken correspondence — not as an infrastructure failure
+        traceback.print_exc()
+        ctx.disagreement("observation point missing in the implementation", {"error": f"{type(e).__name__}: {e}"},
+                         "present when the model was written", f"{type(e).__name__}: {e}")
+        ctx.notes.append("the search for a failing input was cut short by the missing observation point")
     except Exception:
         traceback.print_exc()
         print(f"[{a.prop}] infrastructure failure", file=sys.stderr)
